@@ -336,7 +336,8 @@ pub fn run_case_as(c: &Case, kind: &str, ety: &str, mode: &str) -> Result<Obs, S
             let n = toks.len();
             // tokens of the gapped kinds carry their own spans: token i covers 3i+1 .. 3i+2, eoi = 3n .. 3n
             let spanned: Vec<(char, SSpan)> = toks.iter().enumerate().map(|(i, t)| (*t, SSpan::from(3 * i + 1..3 * i + 2))).collect();
-            let eoi = SSpan::from(3 * n..3 * n);
+            // the end-of-input span is deliberately not zero-width: only its END is where an empty match at the end lies
+            let eoi = SSpan::from((3 * n).saturating_sub(1)..3 * n);
             match kind {
                 "stream" => run_kind::<_, Rich<char>>(&c.g, Stream::from_iter(Counting { it: toks.clone().into_iter(), idx: 0 }), &c.inp, mode),
                 "bstream" => run_kind::<_, Rich<char>>(&c.g, Stream::from_iter(Counting { it: toks.clone().into_iter(), idx: 0 }).boxed(), &c.inp, mode),
